@@ -48,6 +48,7 @@ type Interp struct {
 	assertQ int
 	cfg     *RunCfg
 	expired *int32
+	liveDesc string
 	tags    []string
 	fnSteps map[*ssa.Function]int
 	pc      []string
@@ -537,6 +538,13 @@ func (it *Interp) execBlock(fr *frame, b, prev *ssa.BasicBlock) (res blockResult
 		it.steps++
 		if it.steps > it.cfg.StepLimit {
 			panic(pathEnd{"step limit"})
+		}
+		if debugStack && it.steps%500000 == 0 {
+			var chain []string
+			for f := fr; f != nil && len(chain) < 8; f = f.caller {
+				chain = append(chain, f.fn.String())
+			}
+			fmt.Fprintf(os.Stderr, "STEPS %d in %s\n", it.steps, strings.Join(chain, " <- "))
 		}
 		if it.steps&1023 == 0 && it.expired != nil && atomic.LoadInt32(it.expired) == 1 {
 			panic(pathEnd{"wall limit"})
@@ -1538,7 +1546,8 @@ func (it *Interp) next(iv *IterV, x *ssa.Next) Value {
 		return TupleV{false, it.zeroOrNil(tt.At(1).Type()), it.zeroOrNil(tt.At(2).Type())}
 	}
 	k := 0
-	if !it.cfg.NoMapPerm && len(live) > 1 {
+	if !it.cfg.NoMapPerm && len(live) > 1 && !it.isHarnessFn(x.Parent()) {
+		// Go's iteration order is unspecified: explore every order - for go-plugin's own loops
 		k = it.choose(len(live), "maporder")
 	}
 	key, idx := iv.keys[live[k]], where[k]
